@@ -38,6 +38,12 @@ pub enum Op {
     /// something (as the CLI's --import does): with neither `variablelist` nor `adhoccounting` the
     /// deserialised store is used as it is
     SerdeNoFix,
+    /// `Bdd::from` on the node list WITHOUT the two constants (what the channel frontend transmits)
+    RebuildStream,
+    /// serde JSON round trip in which only a part of the unique-table entries (`cache`) survives (a state
+    /// stripped / written by another tool), then fix_import. The store may lose sharing from here on
+    /// (only generated for C07: functions must stay right, handles need not be canonical any more).
+    SerdePartialCache(u16),
 }
 
 #[derive(Clone, Debug, Serialize, Deserialize, PartialEq, Eq, Hash)]
@@ -86,6 +92,7 @@ pub fn op_strategy(rematerialise: bool) -> BoxedStrategy<Op> {
             1 => Just(Op::AdfSerde),
             1 => Just(Op::FixImport),
             1 => Just(Op::SerdeNoFix),
+            1 => Just(Op::RebuildStream),
         ]
         .boxed()
     } else {
@@ -99,6 +106,17 @@ pub fn program(kmax: u8, maxops: usize, rematerialise: bool) -> BoxedStrategy<Pr
         proptest::collection::vec(op_strategy(rematerialise), 1..=maxops),
         prop_oneof![4 => Just(0u8), 1 => 1u8..5],
     )
+        .prop_map(|(k, ops, spread)| Program { k, ops, spread })
+        .boxed()
+}
+
+/// programs for C07 in which imports with a partial unique table occur (the store may be non-canonical afterwards)
+pub fn program_partial_import(kmax: u8, maxops: usize) -> BoxedStrategy<Program> {
+    let op = prop_oneof![
+        12 => op_strategy(true),
+        1 => any::<u16>().prop_map(Op::SerdePartialCache),
+    ];
+    (1..=kmax, proptest::collection::vec(op, 2..=maxops), prop_oneof![4 => Just(0u8), 1 => 1u8..5])
         .prop_map(|(k, ops, spread)| Program { k, ops, spread })
         .boxed()
 }
@@ -185,6 +203,7 @@ pub struct StepInfo {
     pub overlapping_binary: bool,
     pub deep_restrict: bool,
     pub rematerialised: bool,
+    pub partial_import: bool,
 }
 
 pub struct Shadow {
@@ -198,6 +217,8 @@ pub struct Shadow {
     pub step_no: usize,
     /// logical variable -> library variable index
     pub vm: Vec<usize>,
+    /// set once a state with an incomplete unique table was imported: equal functions may have several handles
+    pub degraded: bool,
 }
 
 pub fn top_var(bdd: &Bdd, t: Term) -> usize {
@@ -217,6 +238,7 @@ impl Shadow {
             by_handle: HashMap::new(),
             step_no: 0,
             vm: (0..k).collect(),
+            degraded: false,
         };
         s.record(Term::BOT, t_const(k, false)).unwrap();
         s.record(Term::TOP, t_const(k, true)).unwrap();
@@ -226,6 +248,19 @@ impl Shadow {
     /// C06 I4: same handle iff same function
     fn record(&mut self, h: Term, t: Table) -> Result<bool, String> {
         let mut hit = false;
+        if self.degraded {
+            // only: one handle, one function
+            if let Some(pt) = self.by_handle.get(&h) {
+                if *pt != t {
+                    return Err(format!("handle {} was issued for two different Boolean functions", h.value()));
+                }
+                return Ok(true);
+            }
+            self.by_table.insert(t.clone(), h);
+            self.by_handle.insert(h, t.clone());
+            self.issued.push((h, t, self.step_no));
+            return Ok(false);
+        }
         if let Some(prev) = self.by_table.get(&t) {
             if *prev != h {
                 return Err(format!(
@@ -293,6 +328,10 @@ impl Shadow {
         let k = self.k;
         let before_nodes = self.bdd.nodes.clone();
         let mut info = StepInfo::default();
+        if self.degraded && matches!(op, Op::Rebuild | Op::RebuildStream | Op::AdfNodeList) {
+            // replaying a node list is only defined for lists without duplicates
+            return Ok(info);
+        }
         let (res, table): (Term, Table) = match op {
             Op::Var(v) => {
                 let v = (*v as usize) % k;
@@ -356,6 +395,43 @@ impl Shadow {
             Op::Rebuild => {
                 self.bdd = Bdd::from(self.bdd.nodes.clone());
                 info.rematerialised = true;
+                self.after_rematerialise(&before_nodes)?;
+                return Ok(info);
+            }
+            Op::RebuildStream => {
+                self.bdd = Bdd::from(self.bdd.nodes[2..].to_vec());
+                info.rematerialised = true;
+                self.after_rematerialise(&before_nodes)?;
+                return Ok(info);
+            }
+            Op::SerdePartialCache(sel) => {
+                let mut v = serde_json::to_value(&self.bdd).map_err(|e| format!("serialise: {e}"))?;
+                let cache = v.get_mut("cache").and_then(|c| c.as_array_mut()).ok_or("exported store has no `cache` list")?;
+                // sel % 4: 0 = none survives, 1 = every second (by position in a sorted order), 2 = the first half, 3 = all but one
+                let mut entries = std::mem::take(cache);
+                entries.sort_by_key(|e| e.to_string());
+                let n = entries.len();
+                let keep: Vec<serde_json::Value> = entries
+                    .into_iter()
+                    .enumerate()
+                    .filter(|(i, _)| match sel % 4 {
+                        0 => false,
+                        1 => (i + (*sel as usize >> 2)) % 2 == 0,
+                        2 => *i < n / 2,
+                        _ => *i != (*sel as usize >> 2) % n.max(1),
+                    })
+                    .map(|(_, e)| e)
+                    .collect();
+                let dropped = n - keep.len();
+                *cache = keep;
+                let mut nb: Bdd = serde_json::from_value(v).map_err(|e| format!("deserialise: {e}"))?;
+                nb.fix_import();
+                self.bdd = nb;
+                if dropped > 0 {
+                    self.degraded = true;
+                }
+                info.rematerialised = true;
+                info.partial_import = dropped > 0;
                 self.after_rematerialise(&before_nodes)?;
                 return Ok(info);
             }
